@@ -62,3 +62,24 @@ def im_core(ctx):
         c08.r08_1(ctx, c08.stream_fns(F) + [lag])
         c08.r08_3(ctx, c08.stream_fns(F), lag)
     c06.r06_5(ctx)
+
+
+def util_stage_rules(ctx, which=("c09", "c10", "c11")):
+    """the per-adapter structural rules (a chain / a batched flavour / a bounded view is only as right as each adapter)."""
+    import importlib
+    for m in which:
+        importlib.import_module("engine.rules." + m).run(ctx)
+
+
+def util_buffers(ctx):
+    """ready-buffer discipline shared by all adapters: FIFO idioms, no empty batches, batched containers cannot split."""
+    from . import c13
+    F = ctx.facts
+    vimp = c13.ops_impl(F, c13.VEC_IMPL)
+    oimp = c13.ops_impl(F, c13.ONE_IMPL)
+    if vimp is None or oimp is None:
+        ctx.missing("R13.1", "impl VectorDiffContainerOps for Vec<VectorDiff<T>> / VectorDiff<T>")
+        return
+    c13.r13_1(ctx, vimp)
+    c13.r13_3(ctx, vimp)
+    c13.r13_5(ctx, oimp)
